@@ -92,7 +92,12 @@ def merge_case(col, paths, cls, b, l, rm, info, cfg, variant, schema, prop):
     col.count("renderer:" + variant)
     col.count("config:merge=%s" % cfg["merge"])
     try:
-        merged, decisions = nbd.merge_notebooks(to_node(b), to_node(l), to_node(rm), args)
+        if col.evaluations % 5 == 3:
+            # every fifth merge is called from a non-main thread (the library having been imported by the main one)
+            merged, decisions = nbd.call_in_thread(nbd.merge_notebooks, to_node(b), to_node(l), to_node(rm), args)
+            col.count("merges_called_from_a_worker_thread")
+        else:
+            merged, decisions = nbd.merge_notebooks(to_node(b), to_node(l), to_node(rm), args)
     except Exception as e:
         key, tmpl = nbd.exc_key(e)
         col.count("merge_raised")
@@ -102,7 +107,7 @@ def merge_case(col, paths, cls, b, l, rm, info, cfg, variant, schema, prop):
     finally:
         os.environ["PATH"] = paths["full"]
     col.mon("merge_returned")
-    if nbd.mg._merge_strings.recursion:
+    if nbd.recursion_flag():
         col.violation("recursion-flag-left-set", "_merge_strings.recursion is True after return", case, "state")
     if not isinstance(decisions, list) or not isinstance(merged, dict):
         col.violation("bad-return-shape", "%s / %s" % (type(merged).__name__, type(decisions).__name__), case, "returns")
